@@ -10,8 +10,8 @@ open Scrapli Scrapli.Chan
   device = scripted: the i-th write call is answered with the i-th entry of the output list
   (what the real device printed after the real i-th write) — trace refinement.
   reply: per op `gp=<hex>` | `si=<raw>,<processed>` | `ii=<raw>,<processed>` | `stall`, joined by `;`,
-  then ` W=<writes hexlist> A=<unread hex>`.
-  `ansi <hex>` -> chanRead of one chunk;  `prb <depth> <hex>` -> processReadBuf. -/
+  then ` W=<writes hexlist> A=<unread hex> H=<held-back hex>`.
+  `ansi <hex>` -> chanRead of one chunk;  `ansih <held hex> <chunk hex>` -> chanReadH (output, held);  `prb <depth> <hex>` -> processReadBuf. -/
 
 def mkPat (r : Rx.Rx) : Pat := { search := Rx.searchB r, first := Rx.firstMatch r, sub := Rx.sub r }
 def neverPat : Pat := { search := fun _ => false, first := fun _ => none, sub := id }
@@ -80,9 +80,13 @@ def handleLine (line : String) : String :=
                                              | none => neverPat }
       let s0 : St := ({ avail := init, cuts := cuts, writes := [] }, 0)
       let (res, s) := runOps cfg (scripted outs) (ops.splitOn ";") s0 []
-      s!"{";".intercalate res} W={Hex.encodeList s.1.writes} A={Hex.encode s.1.avail}"
+      s!"{";".intercalate res} W={Hex.encodeList s.1.writes} A={Hex.encode s.1.avail} H={Hex.encode s.1.held}"
     | _, _, _, _, _, _, _ => "bad-op"
   | ["ansi", h] => match Hex.decode h with | some b => Hex.encode (chanRead b) | none => "bad-op"
+  | ["ansih", hh, h] =>
+    match Hex.decode hh, Hex.decode h with
+    | some held, some b => let r := chanReadH held b; s!"{Hex.encode r.1} {Hex.encode r.2}"
+    | _, _ => "bad-op"
   | ["prb", d, h] =>
     match d.toNat?, Hex.decode h with
     | some d, some b => Hex.encode (processReadBuf d b)
